@@ -48,8 +48,9 @@ class DirectFace(Face):
 
 
 class FakeWriter:
-    def __init__(self, on_bytes):
+    def __init__(self, on_bytes, on_close=None):
         self._on_bytes = on_bytes
+        self._on_close = on_close
         self.closed = False
 
     def write(self, data):
@@ -57,7 +58,11 @@ class FakeWriter:
             self._on_bytes(bytes(data))
 
     def close(self):
-        self.closed = True
+        # like a real transport: close() -> connection_lost(None) -> reader.feed_eof(), one iteration later
+        if not self.closed:
+            self.closed = True
+            if self._on_close is not None:
+                asyncio.get_running_loop().call_soon(self._on_close)
 
     def is_closing(self):
         return self.closed
@@ -100,7 +105,8 @@ class StreamPeer:
 
     def _mk(self):
         self.reader = asyncio.StreamReader(limit=2 ** 26, loop=asyncio.get_running_loop())
-        self.writer = FakeWriter(self._on_bytes)
+        reader = self.reader
+        self.writer = FakeWriter(self._on_bytes, lambda: None if reader.at_eof() or reader.exception() else reader.feed_eof())
         self._buf = b''
         return self.reader, self.writer
 
